@@ -41,6 +41,36 @@ Definition zlenT {A} (l : list A) : Z := zlen_from 0 l.
 Definition window (L : layout) (bs : list Z) : list Z :=
   match layout_size L with Some n => firstn n bs | None => bs end.
 
+(* decoding one record from the bytes at a position.  A statically sized record is decoded from
+   its window.  A layout with arrays (the hash tables) first has its leading static fields decoded
+   — they hold the array counts — and is rejected at once when a count exceeds the number of bytes
+   left (each element takes at least one byte, so construct would run off the end of the stream:
+   same verdict), before the arrays are decoded; no file-controlled count is ever turned into a
+   unary number larger than the stream *)
+Fixpoint static_prefix (L : layout) : layout :=
+  match L with
+  | [] => []
+  | (_, KArr _ _ _) :: _ => []
+  | f :: t => f :: static_prefix t
+  end.
+Fixpoint arr_counts (L : layout) : list cexpr :=
+  match L with
+  | [] => []
+  | (_, KArr c _ _) :: t => c :: arr_counts t
+  | _ :: t => arr_counts t
+  end.
+Definition decode_rec (L : layout) (bs : list Z) : option (list (string * fval) * list Z) :=
+  match layout_size L with
+  | Some n => decode_layout L (firstn n bs)
+  | None =>
+      let H := static_prefix L in
+      match decode_layout H (window H bs) with
+      | Some (h, _) =>
+          if forallb (fun c => eval (rev h) c <=? zlenT bs) (arr_counts L) then decode_layout L bs else None
+      | None => None
+      end
+  end.
+
 (* the SysV hash table of the 64-bit Alpha and s390x psABIs has 64-bit entries (everywhere else
    32-bit words: Spec/ElfGabi.v spec_Elf_Hash); structs.py _create_elf_hash.  Gen/ElfLayouts.v
    carries the common layout only, so this one is written here, for the specification and the
